@@ -75,7 +75,20 @@ var namedRefs = []struct{ name, val string }{
 	{"amp", "&"}, {"lt", "<"}, {"gt", ">"}, {"quot", "\""}, {"copy", "©"}, {"ouml", "ö"}, {"AElig", "Æ"}, {"hearts", "♥"}, {"frac34", "¾"}, {"Dcaron", "Ď"}, {"ast", "*"}, {"lowbar", "_"}, {"lbrack", "["}, {"grave", "`"}, {"num", "#"}, {"plus", "+"}, {"excl", "!"}, {"bsol", "\\"},
 }
 
+// sequences that look like escapes or references but are literal text, or that decode to the replacement character
+var inertAtoms = []struct{ md, html, plain string }{
+	{"&nosuchentity;", "&amp;nosuchentity;", "&nosuchentity;"}, {"&copy", "&amp;copy", "&copy"}, {"&#87654321;", "&amp;#87654321;", "&#87654321;"},
+	{"&#;", "&amp;#;", "&#;"}, {"&#x;", "&amp;#x;", "&#x;"}, {"&#abcdef0;", "&amp;#abcdef0;", "&#abcdef0;"}, {"&", "&amp;", "&"},
+	{"&#0;", "\uFFFD", "\uFFFD"}, {"&#xD800;", "\uFFFD", "\uFFFD"}, {"&#1114112;", "\uFFFD", "\uFFFD"},
+	{"\\a", "\\a", "\\a"}, {"\\é", "\\é", "\\é"}, {"\\1", "\\1", "\\1"},
+}
+
 func (g *Gen) atom() inline {
+	if g.chance(1, 8) {
+		a := inertAtoms[g.pick(len(inertAtoms))]
+		g.St.add("escape:inert-lookalike")
+		return inline{a.md, a.html, a.plain, false}
+	}
 	switch g.pick(4) {
 	case 0: // backslash escape
 		c := escapable[g.pick(len(escapable))]
